@@ -250,15 +250,22 @@ theorem loop_count (now : Int) (spec document nowV : Val) (multi : Bool) (T : Li
         have hs0 : LInv now T rest (c.setDoc key new) := hset new
         by_cases hc : (if c.isOD key then pyEqOrdered new v else pyEq new v) = true
         · rw [if_pos hc] at h
-          cases multi with
-          | true =>
-            simp only [if_true] at h ⊢
-            have := ih _ (matched + 1) updated c' m' u' more hd' hs0 hm h (by omega)
-            simp only [if_true] at this
-            omega
-          | false =>
-            simp only [Bool.false_eq_true, if_false, Prod.mk.injEq, Except.ok.injEq] at h ⊢
-            omega
+          -- the unique indexes are checked on the "unchanged" branch as well
+          cases hu : ensureUniques now (c.setDoc key new) new with
+          | error e => rw [hu] at h; cases h
+          | ok c2 =>
+            rw [hu] at h
+            dsimp only at h
+            have hs2 : LInv now T rest c2 := hs0.rel (Rel.ofEnsure hu)
+            cases multi with
+            | true =>
+              simp only [if_true] at h ⊢
+              have := ih _ (matched + 1) updated c' m' u' more hd' hs2 hm h (by omega)
+              simp only [if_true] at this
+              omega
+            | false =>
+              simp only [Bool.false_eq_true, if_false, Prod.mk.injEq, Except.ok.injEq] at h ⊢
+              omega
         · rw [if_neg hc] at h
           generalize (!pyEqOpt _ _) = q at h
           cases q with
